@@ -4,9 +4,10 @@
 //                                   (unit edge weights; `-` when the lists are not uniform/in range and the Dijkstra
 //                                   would read outside them)
 // in : fn method=brute|vptree|covertree k=3 check=1 cb=plain|kernel <space fields of knn_common.hpp> [vs=..]
-// out: ids=<final lists> tried=<every k searched> c=<is_connected(final)> fin=<0|1> levels=<k:lists|k:lists|..>
-//      levels = the lists find_neighbors(.., k_j, false) returns for every k_j that was tried, recomputed with the
-//      vantage stream replayed from the start, i.e. exactly the graphs the connectivity test saw
+// out: ids=<final lists> kfinal=<length of the returned lists> c=<is_connected(final)> fin=<0|1> levels=<k:lists|..>
+//      levels = the lists find_neighbors(.., k_j, false) returns for k_j = k, 2k, 4k, .. (clamped to N-1, up to N-1),
+//      recomputed with the vantage stream replayed from the start, i.e. the graphs a doubling recursion can see.
+//      Nothing is derived from log messages.
 #include "knn_common.hpp"
 
 using namespace tapkee;
@@ -50,52 +51,45 @@ static std::string finite_geodesics(std::vector<int>& data, Neighbors& nb)
 }
 
 template <class Callback>
-static std::string run_fn(const std::string& method, std::vector<int>& data, Callback cb, IndexType k, bool check,
-                          vk::CaptureLogger* logger)
+static std::string run_fn(const std::string& method, std::vector<int>& data, Callback cb, IndexType k, bool check)
 {
     int N = (int)data.size();
-    logger->warnings.clear();
     vk::stream().pos = 0;
     Neighbors nb = find_neighbors(vk::method_of(method), data.begin(), data.end(), cb, k, check);
-    // every k that was searched, as announced by the library's own log messages
-    // ("The neighborhood graph with {k} neighbors is [not] connected")
-    std::vector<IndexType> tried;
-    for (auto& w : logger->warnings)
-    {
-        const std::string key = "The neighborhood graph with ";
-        auto p = w.find(key);
-        if (p != std::string::npos)
-            tried.push_back(std::stoi(w.substr(p + key.size())));
-    }
-    (void)N;
-    std::string out = "ids=" + vk::show_lists(nb) + " tried=";
-    for (size_t j = 0; j < tried.size(); j++)
-        out += (j ? "," : "") + std::to_string(tried[j]);
+    // the k of the returned graph is read off the lists themselves (never from log text)
+    std::string out = "ids=" + vk::show_lists(nb) + " kfinal=" + std::to_string(nb.empty() ? 0 : (int)nb[0].size());
     bool uni = uniform_in_range(nb, N);
     out += std::string(" c=") + (uni ? (is_connected(data.begin(), data.end(), nb) ? "1" : "0") : "-");
     out += " fin=" + finite_geodesics(data, nb);
-    // replay the searches the recursion performed
+    // the searches a doubling recursion can perform from this k: k, 2k, 4k, ... each clamped to N-1, until N-1 is
+    // reached (only the first one without the check); the vantage stream is replayed from the start, so level j sees
+    // the draws the j-th search of the real recursion saw
     vk::stream().pos = 0;
     out += " levels=";
-    for (size_t j = 0; j < tried.size(); j++)
+    IndexType kk = k;
+    for (int j = 0; j < 64; j++)
     {
-        Neighbors lv = find_neighbors(vk::method_of(method), data.begin(), data.end(), cb, tried[j], false);
-        out += (j ? "|" : "") + std::to_string(tried[j]) + ":" + vk::show_lists(lv);
+        if (kk > N - 1)
+            kk = N - 1;
+        Neighbors lv = find_neighbors(vk::method_of(method), data.begin(), data.end(), cb, kk, false);
+        out += (j ? "|" : "") + std::to_string(kk) + ":" + vk::show_lists(lv);
+        if (!check || kk >= N - 1 || kk <= 0)
+            break;
+        kk = 2 * kk;
     }
     return out;
 }
 
 int main()
 {
-    vk::CaptureLogger* logger = new vk::CaptureLogger();
-    Logging::instance().set_logger_impl(logger);
-    Logging::instance().enable_info();
+    Logging::instance().disable_warning();
+    Logging::instance().disable_info();
     std::string line;
     while (std::getline(std::cin, line))
     {
         if (line.empty())
             continue;
-        vh::case_alarm(10);
+        vh::case_alarm(30);
         auto f = vh::fields(line);
         std::string out;
         if (line.rfind("conn ", 0) == 0)
@@ -124,9 +118,9 @@ int main()
             IndexType k = std::stoi(f["k"]);
             bool check = !f.count("check") || f["check"] == "1";
             if (f["cb"] == "kernel")
-                out = run_fn(f["method"], data, vk::KernelD(vk::KernCb{&sp}), k, check, logger);
+                out = run_fn(f["method"], data, vk::KernelD(vk::KernCb{&sp}), k, check);
             else
-                out = run_fn(f["method"], data, vk::PlainD(vk::DistCb{&sp}), k, check, logger);
+                out = run_fn(f["method"], data, vk::PlainD(vk::DistCb{&sp}), k, check);
         }
         std::cout << out << std::endl;
     }
